@@ -18,6 +18,11 @@ def _f17_c19(case, details):
     return details.get('why') == 'intersect() raised' and list(details.get('got', []))[1:2] == ['IndexError'] \
         and details.get('empty_intersection') is True
 
+@signature('empty_selection_derivation_indexerror')
+def _f17_c15(case, details):
+    """F17: db(**selection) with an empty selection raises IndexError"""
+    return case.get('kind') == 'empty_selection' and 'IndexError' in str(details)
+
 def match(prop, mismatch, active):
     for k in active:
         f = SIGNATURES.get(k['signature'])
